@@ -752,6 +752,7 @@ def r06_10(prog, rep):
 
     ew = one_body(prog, rep, 'R06.10', 'mla', adt='layers::encrypt::EncryptionLayerWriter', name='write', trait='std::io::Write')
     if ew is not None:
+        ew = inlined_body(prog, ew, skip=('renew_cipher',))      # closing a chunk (new cipher + tag) may be a private helper
         geometry(ew, lambda b, pl: place_fields(pl)[-1:] == ['current_chunk_offset'], 'CHUNK_SIZE', lambda t: t.cmethod == 'renew_cipher', 'encryption chunk')
     cw = one_body(prog, rep, 'R06.10', 'mla', adt='layers::compress::CompressionLayerWriter', name='write', trait='std::io::Write')
     if cw is not None:
